@@ -649,8 +649,96 @@ def dict_reuse_cases(ctx):
                 ctx.violation("C03:dict-reuse:caller-dict-modified", "the caller's dicts were modified: %r -> %r" % (originals, dicts), rp)
 
 
+def typed_number_cases(ctx):
+    """Numbers in every type a program may compute them in (implementation-only oracle): an event whose degree / note /
+    octave / transpose / amplitude / channel is a numpy integer, a numpy float, a Fraction or a bool-free integral float
+    resolves to the same device messages as the same event written with plain Python numbers."""
+    from fractions import Fraction
+    common.ensure_repo_on_path()
+    import isobar as iso
+    from isobar.io.output import OutputDevice
+    try:
+        import numpy as np
+    except ImportError:
+        ctx.note("numpy is not installed: typed_number_cases skipped")
+        return
+    r = ctx.rng
+
+    class Rec(OutputDevice):
+        def __init__(self):
+            super().__init__()
+            self.calls = []
+
+        def note_on(self, note=60, velocity=64, channel=0):
+            self.calls.append(("on", int(note), int(velocity), int(channel)))
+
+        def note_off(self, note=60, channel=0):
+            self.calls.append(("off", int(note), int(channel)))
+
+        def control(self, control=0, value=0, channel=0):
+            self.calls.append(("cc", int(control), int(value), int(channel)))
+
+    def play(ev):
+        dev = Rec()
+        tl = iso.Timeline(tempo=120, output_device=dev, clock_source=iso.DummyClock(ticks_per_beat=4))
+        tl.schedule(dict(ev), count=1)
+        err = None
+        try:
+            for _ in range(12):
+                tl.tick()
+        except StopIteration:
+            pass
+        except Exception as ex:
+            err = type(ex).__name__
+        return dev.calls, err
+
+    int_types = [np.int64, np.int32, np.int16, Fraction, float]
+    for i in range(ctx.scale(300, 12000)):
+        kind = r.choice(["degree", "degree", "note", "chord-degrees", "control"])
+        plain = {"duration": 1}
+        if kind == "degree":
+            plain.update(degree=r.randint(-9, 14), octave=r.randint(2, 6), transpose=r.randint(-3, 3),
+                         key=iso.Key(r.randint(0, 11), r.choice(["major", "minor", "minorPenta"])))
+        elif kind == "note":
+            plain.update(note=r.randint(20, 100), octave=r.randint(0, 1), transpose=r.randint(-3, 3))
+        elif kind == "chord-degrees":
+            plain.update(degree=tuple(r.randint(-5, 9) for _ in range(r.randint(2, 4))), octave=r.randint(2, 6))
+        else:
+            plain.update(control=r.randint(0, 119), value=r.randint(0, 127))
+        plain["channel"] = r.randint(0, 15)
+        if kind != "control":
+            plain["amplitude"] = r.randint(1, 127)
+        typed = dict(plain)
+        changed = []
+        for k_, v in list(plain.items()):
+            if k_ in ("duration", "key") or r.random() < 0.4:
+                continue
+            t = r.choice(int_types)
+            if isinstance(v, tuple):
+                typed[k_] = tuple(t(x) for x in v)
+            else:
+                typed[k_] = t(v)
+            changed.append("%s:%s" % (k_, t.__name__))
+        if not changed:
+            continue
+        exp, exp_err = play(plain)
+        got, got_err = play(typed)
+        shown = {k_: repr(v) for k_, v in typed.items() if k_ != "key"}
+        ctx.case(("typed", kind, repr(sorted(shown.items())), tuple(changed)), nontrivial=True, validated=False,
+                 sample={"part": "typed numbers", "kind": kind, "changed": changed, "event": shown})
+        ctx.count("typed:" + kind)
+        for c_ in changed:
+            ctx.count("typed-type:" + c_.split(":")[1])
+        if got != exp or got_err != exp_err:
+            ctx.violation("C03:typed-numbers:" + kind,
+                          "the event %s (typed: %s) performs %s%s; with plain Python numbers it performs %s%s" % (
+                              shown, changed, got[:4], (" raised " + got_err) if got_err else "", exp[:4], (" raised " + exp_err) if exp_err else ""),
+                          {"suite": "c03-typed", "kind": kind, "event": shown, "changed": changed, "expected": [list(x) for x in exp]})
+
+
 def run(ctx):
     check_table(ctx)
+    typed_number_cases(ctx)
     dict_reuse_cases(ctx)
     cases = type_product_cases() + corpus_cases()
     ctx.extra["exhaustive"] = False
